@@ -535,7 +535,7 @@ pub fn t_lock<C: Kind<L>, L: Uni<N>, const N: usize>(c: &C, relock: bool) {
 	assert!(all_balanced(&st), "C05_every_hold_released_once_in_its_mode");
 	assert!(key_flag(), "C06_key_still_alive_after_unlock");
 	if relock {
-		// the key that came back re-acquires the very same locks (no self-wait: C01_no_self_wait)
+		// the key that came back re-acquires the very same locks (no self-wait: U_no_self_wait)
 		let g = c.k_lock(key);
 		assert!(all_mine_x(&st), "C03_reacquire_with_returned_key");
 		if N > 0 {
